@@ -50,6 +50,8 @@ def classify(n):
         return "bookkeeping (start address)"
     if isinstance(p, ast.Call) and n in p.args:
         return "bookkeeping (passed on)"
+    if isinstance(p, ast.keyword) and p.value is n and isinstance(getattr(p, "_parent", None), ast.Call):
+        return "bookkeeping (passed on)"
     if isinstance(p, ast.BinOp) and isinstance(p.op, ast.Add):
         # state['emit_address'] + 2 + len(...) as the value of the 'rel_address' key
         q = p
